@@ -30,9 +30,10 @@ func (runInfo *runInfoStruct) funcExpr() {
 
 		// run function statements
 		runInfo.runSingleStmt()
+		// the result is the value at the end of the body, not a view of the variable, element
+		// or field the last expression read (and deferred calls do not alter it)
+		runInfo.rv = detachValue(runInfo.rv)
 		if len(runInfo.defers) > 0 {
-			// the result is the value at the end of the body, deferred calls do not alter it
-			runInfo.rv = detachValue(runInfo.rv)
 			runInfo.runDefers()
 		}
 		if runInfo.err != nil && runInfo.err != ErrReturn {
